@@ -312,6 +312,16 @@ def check_props(pid, timeout=600):
     return res
 
 
+def check_pins(pid):
+    """Statements of Props/<pid>.v against coq/Props/EXPECTED.json (lib/pins.py): [(theorem, what differs)].  A pinned theorem
+    that disappeared, a changed statement, a changed definition the statement is written with, an unpinned theorem."""
+    from . import pins
+    try:
+        return pins.verify(pid)
+    except Exception as ex:     # the pin machinery itself failing is a broken check, not a pass
+        return [('lib/pins.py', 'pin verification crashed: %r' % ex)]
+
+
 # ----------------------------------------------------------------------------- running the model
 
 def coq_list(xs):
